@@ -206,6 +206,8 @@ def build_infer(V, head, cond, style: str = "infer_entity", split_top: bool = Fa
             conds = [build_cond(cond, V)]
         if style == "infer_entity":
             q = infer(entity(h, *conds))
+        elif style == "an_in_rule_mode":
+            q = an(entity(h, *conds))      # as in the repository's rule tests: a rule written with an(...) in rule mode
         else:
             q = infer(h, *conds)
     return q
